@@ -22,6 +22,73 @@ func init() {
 	acts["eap_encode"] = actEapEncode
 	acts["eap_decode"] = actEapDecode
 	acts["eap_reencode"] = actEapReencode
+	acts["msgobj_set"] = actMsgObjSet
+	acts["msgobj_encode"] = actMsgObjEncode
+	acts["eapobj_decode"] = actEapObjDecode
+	acts["eapobj_encode"] = actEapObjEncode
+}
+
+// ---- long-lived objects that are used again (ObjHist.tla): one IKEMessage and one EAP object per behaviour
+
+// msgobj_set makes the retained message object hold the given message the way a caller re-using a request object for the
+// next message does: header fields assigned one by one on the SAME header object, the SAME container emptied with Reset and
+// filled again.
+func actMsgObjSet(e *Env, a J) J {
+	m, err := buildMsg(gj(a, "msg"))
+	if err != nil {
+		return J{"infra": "msgobj_set: " + err.Error()}
+	}
+	obj, _ := e.objs["msgobj"].(*message.IKEMessage)
+	if obj == nil {
+		e.objs["msgobj"] = m
+		return J{"err": false}
+	}
+	h, n := obj.IKEHeader, m.IKEHeader
+	h.InitiatorSPI, h.ResponderSPI, h.MajorVersion, h.MinorVersion = n.InitiatorSPI, n.ResponderSPI, n.MajorVersion, n.MinorVersion
+	h.ExchangeType, h.Flags, h.MessageID, h.NextPayload = n.ExchangeType, n.Flags, n.MessageID, n.NextPayload
+	obj.Payloads.Reset()
+	obj.Payloads = append(obj.Payloads, m.Payloads...)
+	return J{"err": false}
+}
+
+func actMsgObjEncode(e *Env, a J) J {
+	obj, _ := e.objs["msgobj"].(*message.IKEMessage)
+	if obj == nil {
+		return J{"infra": "msgobj_encode: no object"}
+	}
+	w, err := obj.Encode()
+	o := errObs(err)
+	if err == nil {
+		o["wire"] = octOf(w)
+	}
+	return o
+}
+
+func actEapObjDecode(e *Env, a J) J {
+	obj, _ := e.objs["eapobj"].(*eap.EAP)
+	if obj == nil {
+		obj = new(eap.EAP)
+		e.objs["eapobj"] = obj
+	}
+	err := obj.Unmarshal(layouts(gox(a, "wire"), false)[0])
+	o := errObs(err)
+	if err == nil {
+		o["eap"] = projEap(obj)
+	}
+	return o
+}
+
+func actEapObjEncode(e *Env, a J) J {
+	obj, _ := e.objs["eapobj"].(*eap.EAP)
+	if obj == nil {
+		return J{"infra": "eapobj_encode: no object"}
+	}
+	w, err := marshalGuarded(obj)
+	o := errObs(err)
+	if err == nil {
+		o["wire"] = octOf(w)
+	}
+	return o
 }
 
 // ---- capacity layouts (C04: the outcome must depend on the visible octets only)
